@@ -759,6 +759,7 @@ func (o *vtC29Oracle) command(cmd int) {
 		default:
 		}
 	case vtC29CmdSettle:
+		vtC29Settle()
 	}
 	o.quiet("after a command")
 }
@@ -805,16 +806,17 @@ func VerifC29History() {
 }
 
 var vtC29Scripts = [][]int{
-	0: {},
-	1: {vtC29CmdPause},
-	2: {vtC29CmdPause, vtC29CmdEdit, vtC29CmdRestart, vtC29CmdEdit, vtC29CmdResume},
-	3: {vtC29CmdFlushWait},
-	4: {vtC29CmdEdit, vtC29CmdFlushWait},
-	5: {vtC29CmdReset},
-	6: {vtC29CmdTerminate},
-	7: {vtC29CmdTerminate, vtC29CmdEdit, vtC29CmdResume, vtC29CmdFlushNoWait, vtC29CmdReset, vtC29CmdRestart},
-	8: {vtC29CmdPause, vtC29CmdFlushWait, vtC29CmdReset, vtC29CmdRestart, vtC29CmdFlushNoWait, vtC29CmdEdit},
-	9: {vtC29CmdRestart},
+	0:  {},
+	1:  {vtC29CmdPause},
+	2:  {vtC29CmdPause, vtC29CmdEdit, vtC29CmdSettle, vtC29CmdRestart, vtC29CmdSettle, vtC29CmdEdit, vtC29CmdSettle, vtC29CmdResume},
+	3:  {vtC29CmdFlushWait},
+	4:  {vtC29CmdEdit, vtC29CmdFlushWait},
+	5:  {vtC29CmdReset},
+	6:  {vtC29CmdTerminate},
+	7:  {vtC29CmdTerminate, vtC29CmdEdit, vtC29CmdSettle, vtC29CmdResume, vtC29CmdFlushNoWait, vtC29CmdReset, vtC29CmdSettle, vtC29CmdRestart, vtC29CmdSettle, vtC29CmdEdit},
+	8:  {vtC29CmdPause, vtC29CmdFlushWait, vtC29CmdFlushNoWait, vtC29CmdEdit, vtC29CmdSettle, vtC29CmdReset, vtC29CmdSettle, vtC29CmdRestart, vtC29CmdSettle, vtC29CmdFlushNoWait, vtC29CmdEdit, vtC29CmdSettle, vtC29CmdResume},
+	9:  {vtC29CmdRestart},
+	10: {vtC29CmdResume, vtC29CmdPause},
 }
 
 // VerifC29Script: one fixed command sequence (param "script"), issued without
